@@ -144,7 +144,10 @@ G("read_demand_active_pdu", impl=r"impl Client", props=["C06", "C12", "C03"], ke
             self.st() == old(self).st() && self.same_config(old(self)) && self.share() == old(self).share(),"""})
 # C12 "advance only on the expected PDU": `Ok(true)` (= the expected PDU was read) is returned only from a share DATA pdu (every exit that says so)
 G("read_synchronize_pdu", impl=r"impl Client", props=["C06", "C12", "C03"], keys=True, ensures=STATE_FRAME + [(None, "share", "final(self).share() == old(self).share()")],
-  claims=[(r"(?:return )?Ok\(true\)", 0, "proof { assert(pdu.pdu_type is PdutypeDatapdu); }", "before", "C12,C03", "expected-pdu-reported-only-for-a-data-pdu")])
+  # rule R15: the data-PDU type that is tested is bound to a local so that the claim below can name it
+  body_sub=[(r"if DataPDU::from_pdu\(&pdu\)\?\.pdu_type (!=|==) PDUType2::(\w+) \{", r"let __dp_type = DataPDU::from_pdu(&pdu)?.pdu_type; if __dp_type \1 PDUType2::\2 {")],
+  claims=[(r"(?:return )?Ok\(true\)", 0, "proof { assert(__dp_type is Pdutype2Synchronize); }", "before", "C12,C03", "expected-pdu-reported-only-for-a-synchronize-pdu"),
+          (r"(?:return )?Ok\(true\)", 0, "proof { assert(pdu.pdu_type is PdutypeDatapdu); }", "before", "C12,C03", "expected-pdu-reported-only-for-a-data-pdu")])
 G("read_control_pdu", impl=r"impl Client", props=["C06", "C12", "C03"], keys=True, ensures=STATE_FRAME + [(None, "share", "final(self).share() == old(self).share()")],
   # C12 "advance only on the expected PDU": a control PDU is accepted (Ok(true)) only when its action field is the expected action
   claims=[(r"(?:return )?Ok\(true\)", 0, "proof { assert(pdu.pdu_type is PdutypeDatapdu); }", "before", "C12,C03", "expected-pdu-reported-only-for-a-data-pdu"),
@@ -154,7 +157,10 @@ G("read_control_pdu", impl=r"impl Client", props=["C06", "C12", "C03"], keys=Tru
           (r"return Err\(.*GLOBAL: bad message type", 1, """proof { let f = data_pdu.message.fields(); let a = f[first_key(f, "action"@)].1;
             assert(pdu.pdu_type is PdutypeDatapdu && data_pdu.pdu_type is Pdutype2Control && a is U16 && a->U16_0 != action as u16); }""", "before", "C12,C03", "control-refused-only-with-another-action")])
 G("read_font_map_pdu", impl=r"impl Client", props=["C06", "C12", "C03"], keys=True, ensures=STATE_FRAME + [(None, "share", "final(self).share() == old(self).share()")],
-  claims=[(r"(?:return )?Ok\(true\)", 0, "proof { assert(pdu.pdu_type is PdutypeDatapdu); }", "before", "C12,C03", "expected-pdu-reported-only-for-a-data-pdu")])
+  # rule R15: the data-PDU type that is tested is bound to a local so that the claim below can name it
+  body_sub=[(r"if DataPDU::from_pdu\(&pdu\)\?\.pdu_type (!=|==) PDUType2::(\w+) \{", r"let __dp_type = DataPDU::from_pdu(&pdu)?.pdu_type; if __dp_type \1 PDUType2::\2 {")],
+  claims=[(r"(?:return )?Ok\(true\)", 0, "proof { assert(__dp_type is Pdutype2Fontmap); }", "before", "C12,C03", "expected-pdu-reported-only-for-a-font-map-pdu"),
+          (r"(?:return )?Ok\(true\)", 0, "proof { assert(pdu.pdu_type is PdutypeDatapdu); }", "before", "C12,C03", "expected-pdu-reported-only-for-a-data-pdu")])
 # rule R6: Verus' for-loops do not support `continue`: the loop over the parsed PDUs is spelled as an index loop (increment first, same order, same elements)
 G("read_data_pdu", impl=r"impl Client", props=["C06", "C12", "C11"], keys=True,
   body_sub=[(r"for pdu in message\.inner\(\) \{", "let __items = message.inner(); let mut __i: usize = 0; while __i < __items.len() { let pdu = &__items[__i]; __i += 1;")],
